@@ -190,4 +190,34 @@ CLAIMS['C09'] = dict(
           'induction from steps to whole-string equations, which is stated in DESIGN.md but not mechanised.'),
     note=('relative to: clang-14 lowering, STIR, C05, C07; a codec that tests delimiters by other means than find_cs is reported undecided'),
     technique='static analysis: per-iteration loop summaries by abstract interpretation over LLVM IR (widening + verified invariants), sibling agreement of the two replace scans')
-NOT_APPLICABLE = {}
+CLAIMS['C07'] = dict(
+    level='other',
+    text=('Decided: the step facts and call-site facts from which "first / last occurrence" follows by induction over the scan. The needle '
+          'scan cores (find_cs / find_ci) and the backward cores (_find_last, find_last(max,char)) are summarised per iteration by abstract '
+          'interpretation with the character search and the prefix comparison as symbols: a candidate is compared only when it fits and given '
+          'up for not fitting only when it does not, the comparison is (candidate, needle, |needle|), the scan resumes exactly one unit after a '
+          'rejected candidate, a non-null result is a position whose comparison returned 0, the backward window is [cursor, min(max,size)). '
+          'The 23 find / find_last front ends are interpreted with start / max / lengths free over 64 bits: they search exactly '
+          '(c_str()+start, size()-start) with start < size and a needle of length >= 1, return match - c_str() or -1, and return -1 without '
+          'searching only for an empty / null needle or start >= size; contains == (find >= 0); starts_with / ends_with compare exactly |x| '
+          'units at offset 0 / size-|x| under |x| <= size. Not mechanised: the induction from these steps to "smallest / largest index".'),
+    note=('relative to: clang-14 lowering, STIR, memchr / memcmp as specified, C06 for compare_ci and the fold; level "other" because the final '
+          'induction is stated in DESIGN.md rather than machine-checked'),
+    technique='static analysis: per-iteration loop summaries and per-path call-site facts by abstract interpretation over LLVM IR (free scalars at full range, witness search)')
+CLAIMS['C11'] = dict(
+    level='other',
+    text=('Decided over the whole flag space with the values symbolic: for every (sign class, always_signed, class_prefix, digit_class, '
+          'numeric_pad, alignment, width, digit count) the unit sequence format_numeric_string hands to the writer - however split into '
+          'calls - is sign, radix prefix (none for zero), digits, extended to the width with max(0, width - digits - |sign| - |prefix|) pad '
+          'units between sign/prefix and digits (zero-pad), in front (right / default) or behind (left); format_string emits the first '
+          'min(size, precision) units and the pad on the side of the alignment; every numeric printer hands the radix / letter case of its '
+          'digit class to the digit generator and the true sign class to the layout; apply_format dispatches a field without &N to '
+          'entry[counter] and advances the counter, &N to entry[N-1] leaving the counter alone. Not decided here: the digits (C12), what the '
+          'parser accepts and the literal / brace copying (C10 covers its safety, not its value), the character class.'),
+    note=('relative to: clang-14 lowering, STIR, C10, C12, C16; texts < 2^28 units (library contract); level "other": necessary clauses over '
+          'the whole configuration space, not the full output equation'),
+    technique='static analysis: abstract interpretation of the layout routines with all format_spec fields symbolic; emitted unit sequence vs the rendering table, witness search')
+NOT_APPLICABLE = {
+ 'C17': ('byte-identity of what FILE*, narrow / wide streams and ST::format deliver is a statement about data moving through libc / '
+         'iostream at run time; no sound static argument in reach decides it (DESIGN.md section 5); the structural clause sketched in the design is not built'),
+}
